@@ -96,6 +96,20 @@ func (ex *Exec) call(fr *Frame, st *State, site ssa.Instruction, c *ssa.CallComm
 		} else {
 			ex.note("%s: call through unknown function value havoced", fr.label)
 			rets = ex.havocCall(st, sig)
+			if top := fr.topFrame(); top.con != nil && sig.Results().Len() >= 2 {
+				for _, a := range top.con.AssumeValueOrError {
+					if a != txt {
+						continue
+					}
+					// (value, ..., error): a nil error comes with a non-nil value
+					if v0, ok := rets[0].(*Agg); ok && kindOf(sig.Results().At(0).Type()) == kIface {
+						if e, ok := rets[len(rets)-1].(*Agg); ok {
+							ex.assumed[fmt.Sprintf("%s: a call through the function value %s that returns a nil error returns a non-nil value", fr.label, txt)] = true
+							ex.fact(nil, Implies(Eq(tm(e.F[0]), IntT(0)), Not(Eq(tm(v0.F[0]), IntT(0)))))
+						}
+					}
+				}
+			}
 		}
 	} else {
 		rets = ex.dispatch(fr, st, site, fv.Fn, args, fv.Bindings)
